@@ -9,9 +9,19 @@ package serviceprovider
 //@   requires config != nil
 //@
 //@ ## C05: the two signature validators are contract boundaries; their ghost code records what each call was asked to verify
+//@ pure signedOctets(request, relayState, sigAlg) = urlEsc(relayState) != "" ?
+//@             "SAMLRequest=" + urlEsc(request) + "&RelayState=" + urlEsc(relayState) + "&SigAlg=" + urlEsc(sigAlg) :
+//@             "SAMLRequest=" + urlEsc(request) + "&SigAlg=" + urlEsc(sigAlg)
 //@ func (*serviceprovider.ServiceProvider).ValidateRedirectSignature
-//@   inline
 //@   property C05
+//@   requires sp != nil
+//@   assigns vrdCalls, vrdOK, vrdAlg, vrdElem, vrdSig, vrdKeyTag, vrdKeyVal
+//@   ensures C05.accepts-only-one-verification-of-exactly-the-signed-octets: result == nil ==> tagof(sp.signerPublicKey) != 0 && b64ok(expectedSig) &&
+//@             vrdCalls == old(vrdCalls) + 1 && vrdOK && vrdAlg == sigAlg && vrdSig == b64dec(expectedSig) &&
+//@             vrdKeyTag == tagof(sp.signerPublicKey) && vrdKeyVal == valof(sp.signerPublicKey) &&
+//@             vrdElem == signedOctets(request, relayState, sigAlg)
+//@   ensures C05.at-most-one-verification: vrdCalls <= old(vrdCalls) + 1
+//@   canary C05.canary-never-accepts: result != nil
 //@   enter vrCalls = vrCalls + 1
 //@   enter vrSP = sp
 //@   enter vrReq = request
